@@ -136,3 +136,18 @@ func renameMap(base, cur []localEntry) map[string]string {
 	}
 	return nil
 }
+
+func rangeKeysFile(verif string) string { return filepath.Join(verif, "claims", "rangekeys.json") }
+
+func loadRangeKeys(verif string) map[string]map[int]string {
+	m := map[string]map[int]string{}
+	if b, err := os.ReadFile(rangeKeysFile(verif)); err == nil {
+		json.Unmarshal(b, &m)
+	}
+	return m
+}
+
+func saveRangeKeys(verif string, m map[string]map[int]string) {
+	b, _ := json.MarshalIndent(m, "", " ")
+	os.WriteFile(rangeKeysFile(verif), append(b, '\n'), 0o644)
+}
